@@ -685,6 +685,7 @@ func (s *Store) Open() (retErr error) {
 			if fp.CRC32 == 0 {
 				return
 			}
+			verifhook.Hit("store.open.clean-check.before-crc")
 			sum, dur, err := rsum.CRC32WithTiming(s.dbPath)
 			if err != nil {
 				cleanupAndExit(fmt.Sprintf("failed to calculate CRC32 of database file during clean snapshot check: %s", err))
